@@ -5,6 +5,7 @@ import (
 	"log"
 
 	"github.com/HobbyOSs/gosk/internal/ast"
+	"github.com/HobbyOSs/gosk/pkg/cpu"
 	"github.com/HobbyOSs/gosk/pkg/ng_operand"
 )
 
@@ -44,6 +45,20 @@ func processPushPopCommon(env *Pass1, operands []ast.Exp, instName string) {
 		log.Printf("Error finding min output size for %s %s: %v", instName, operandString, err)
 		// Assume default size or handle error appropriately
 		size = 1 // Default size assumption, might need refinement
+	}
+	// PUSH imm: codegen は値が符号付き 8 ビットに収まらなければ 68 iw/id を使うので、同じ規則でサイズを数える
+	if numExp, ok := operands[0].(*ast.NumberExp); ok && instName == "PUSH" && err == nil {
+		if numExp.Value < -128 || numExp.Value > 127 {
+			has66 := ngOperands.Require66h()
+			immSize := 4
+			if (env.BitMode == cpu.MODE_16BIT) != has66 {
+				immSize = 2
+			}
+			size = 1 + immSize
+			if has66 {
+				size++
+			}
+		}
 	}
 	env.LOC += int32(size)
 
